@@ -76,7 +76,7 @@ void reg_axi() {
   struct { const char* n; const char* p; int na; } L[] = {{"axisymmetric_euler", "C02", 2}, {"axi_euler_transient", "C02", 3},
                                                          {"axisymmetric_navierstokes_compressible", "C03", 2}, {"axi_cns_transient", "C03", 3}};
   for (auto& l : L) {
-    Sol s; s.name = l.n; s.prop = l.p; s.nargs = l.na; s.draw = draw; s.point = point; s.eval = eval;
+    Sol s; s.name = l.n; s.prop = l.p; s.nargs = l.na; s.draw = draw; s.point = point; s.eval = eval; s.stretch = 1;
     s.zero_coord_from = 1;   // r > 0; z and t may be exactly 0
     s.special_ok = [](const std::string& n) {
       if (n.rfind("a_", 0) == 0 || n == "k" || n == "mu" || n == "w_0") return 2;
